@@ -108,6 +108,9 @@ fn run_case(data: &[u8], pattern: &[usize], ops: &[Op]) -> Result<(), String> {
     let mut src = Chunked { data, pos: 0, pattern: pattern.to_vec(), k: 0 };
     let mut adapter = ReadAdapter::new(&mut src);
     let mut slice = SliceReader::new(data);
+    // once an operation has failed with EOF the adapter has observed the end of the stream; from then
+    // on its look-ahead must be exact (it "may be optimistic before the end of the stream has been observed")
+    let mut eof_seen = false;
     for (step, &op) in ops.iter().enumerate() {
         let a = match catch_unwind(AssertUnwindSafe(|| apply(&mut adapter, op))) {
             Ok(a) => a,
@@ -116,15 +119,16 @@ fn run_case(data: &[u8], pattern: &[usize], ops: &[Op]) -> Result<(), String> {
         let s = apply(&mut slice, op);
         let ok = match op {
             // look-ahead may be optimistic, never pessimistic
-            Op::CheckEor(_) | Op::HasMore => a == s || (a == Out::Flag(true) && s == Out::Flag(false)),
+            Op::CheckEor(_) | Op::HasMore => a == s || (!eof_seen && a == Out::Flag(true) && s == Out::Flag(false)),
             _ => a == s,
         };
         if !ok {
             return Err(format!("step {step} ({op:?}): ReadAdapter returned {a:?}, SliceReader {s:?}"));
         }
-        // after an error the reader state is unspecified: stop comparing this sequence
-        if matches!(s, Out::ErrEof | Out::ErrInvalid | Out::ErrOther) {
-            break;
+        // every primitive is all-or-nothing in both readers and the provided methods are shared, so the
+        // two stay in step after an error as well; keep comparing
+        if a == Out::ErrEof {
+            eof_seen = true;
         }
     }
     Ok(())
